@@ -718,6 +718,36 @@ func cmt(s string) string {
 	return strings.NewReplacer("(*", "( *", "*)", "* )", "\"", "'").Replace(s)
 }
 
+// slug turns Go source text into an identifier fragment that keeps the operators readable.
+func slug(src string) string {
+	r := strings.NewReplacer("<=", " le ", ">=", " ge ", "==", " eq ", "!=", " ne ", "&&", " and ", "||", " or ", "<<", " shl ", ">>", " shr ",
+		"&^", " andnot ", "<", " lt ", ">", " gt ", "!", " not ", "+", " plus ", "-", " minus ", "*", " mul ", "/", " div ", "%", " mod ",
+		"&", " band ", "|", " bor ", "^", " xor ", "(", " ", ")", " ", "[", " at ", "]", " ", ".", "_", ",", " ", "\"", " ", ":", " ", "{", " ", "}", " ")
+	f := strings.Fields(r.Replace(src))
+	var b strings.Builder
+	for i, w := range f {
+		if i > 0 {
+			b.WriteByte('_')
+		}
+		for _, c := range w {
+			if c == '_' || (c >= '0' && c <= '9') || (c >= 'a' && c <= 'z') || (c >= 'A' && c <= 'Z') {
+				b.WriteRune(c)
+			} else {
+				b.WriteByte('_')
+			}
+		}
+	}
+	out := b.String()
+	if len(out) > 72 {
+		h := uint32(2166136261)
+		for i := 0; i < len(src); i++ {
+			h = (h ^ uint32(src[i])) * 16777619
+		}
+		out = fmt.Sprintf("%s_%08x", out[:60], h)
+	}
+	return out
+}
+
 func coqName(prefix, fn string) string {
 	return prefix + "__" + strings.ReplaceAll(fn, ".", "_")
 }
@@ -846,10 +876,15 @@ func emitGuards(w *bytes.Buffer, pi *pkgInfo, repo, prefix, name string) int {
 		if !okk || (len(t.atomTxt) == 1 && body == "x1") {
 			return
 		}
+		// guards are named after their own source text (not their position), so that inserting or removing
+		// an unrelated guard does not rename the others, while any edit of a guard renames it
+		if kind != "assign" {
+			label = label + "_" + slug(t.src(e))
+		}
 		count[label]++
 		nm := fmt.Sprintf("%s__%s", base, label)
-		if count[label] > 1 || kind != "assign" {
-			nm = fmt.Sprintf("%s__%s%d", base, label, count[label])
+		if count[label] > 1 {
+			nm = fmt.Sprintf("%s__%s_%d", base, label, count[label])
 		}
 		var ps []string
 		for i, aty := range t.atomTy {
